@@ -20,7 +20,7 @@ func (c15) Size(tier string) Size {
 	return Size{Batches: 16, Cases: 8000}
 }
 func (c15) Rule() string {
-	return "case = schema of 0-5 soft types x 0-4 relationships built coherent and then perturbed with 0..n planted faults (missing target, missing / misnamed / mis-typed inverse, wrong FromType on one-way and two-way relationships, self-referential relationships, nil maps); oracle = my own predicate offending(rel): len(Check())==0 iff no offending relationship, len(Check()) >= number of offending relationships, no panic, deep schema fingerprint unchanged. Names include '_' (a_b / b_c style collisions); in 2 of 5 types the Rels map keys are not the relationships' FromName (prefixed, or rotated among siblings): a relationship is what it says, not the key it is stored under. Non-trivial = >= 2 relationships with at least one naming an inverse."
+	return "case = schema of 0-5 soft types x 0-4 relationships built coherent and then perturbed with 0..n planted faults (missing target, missing / misnamed / mis-typed inverse, wrong (also empty) FromType on one-way and two-way relationships, self-referential relationships, nil maps); oracle = my own predicate offending(rel): len(Check())==0 iff no offending relationship, len(Check()) >= number of offending relationships, no panic, deep schema fingerprint unchanged. Names include '_' (a_b / b_c style collisions); in 2 of 5 types the Rels map keys are not the relationships' FromName (prefixed, or rotated among siblings): a relationship is what it says, not the key it is stored under. Non-trivial = >= 2 relationships with at least one naming an inverse."
 }
 func (c15) Assumptions() []string {
 	return []string{"reading: 'reciprocated by a relationship of the target type that names it back' includes the back-reference's target type (the quantifier lists mis-typed inverses separately from misnamed ones)",
@@ -286,7 +286,7 @@ func (m c15) Case(c *Ctx, r *RNG) {
 			if rel.ToName == "" {
 				continue
 			}
-			rel.FromType = rel.FromType + "x"
+			rel.FromType = r.Pick([]string{rel.FromType + "x", "", "", strings.ToUpper(rel.FromType) + "_", " " + rel.FromType}) // also left empty
 			tag = "wrong-fromtype-twoway"
 		case 5:
 			if rel.ToName != "" {
